@@ -85,6 +85,8 @@ class BX:
             'sigma=2,L=2,pal=abc+ext,stretch=1,pd=quick,nf=2',
             'sigma=2,L=2,pal=sgn,stretch=130,pd=min,nf=1,maxn=3',
             'sigma=3,L=2,pal=abc,stretch=1,pd=min,nf=1,maxn=3',
+            'sigma=2,L=2,pal=abc,stretch=1,pd=min,nf=1,maxn=2,pre=126+127+128',
+            'sigma=2,L=4,pal=abc,stretch=1,pd=min,nf=1,maxn=3,kinds=RPDAC+HASHRPF+HASHRPDAC+RPFC',
         ],
         'thorough': [
             'sigma=2,L=2,pal=abc+ext+sgn+spr,stretch=1+130,pd=full,nf=4',
@@ -94,6 +96,9 @@ class BX:
             'sigma=2,L=4,pal=abc,stretch=1,pd=quick,nf=1,co=2',
             'sigma=3,L=3,pal=abc,stretch=1,pd=min,nf=1,co=1',
             'sigma=2,L=2,pal=abc,stretch=1100,pd=min,nf=1,maxn=3',
+            'sigma=2,L=2,pal=abc+sgn,stretch=1,pd=quick,nf=1,maxn=3,pre=125+126+127+128+129',
+            'sigma=2,L=4,pal=abc,stretch=1,pd=min,nf=1,maxn=3',
+            'sigma=2,L=2,pal=abc,stretch=1,pd=min,nf=1,maxn=2,pre=16382+16383+16384',
         ],
     }
     DEADLINE = {'quick': 240, 'thorough': 2700}
@@ -110,7 +115,15 @@ class BX:
         out = []
         for s in self.SCOPES[tier]:
             if prop in self.KINDS:
-                s += ',kinds=' + self.KINDS[prop]
+                want = self.KINDS[prop].split('+')
+                m = re.search(r',kinds=([A-Za-z+]+)', s)
+                if m:
+                    both = [k for k in m.group(1).split('+') if k in want]
+                    if not both:
+                        continue
+                    s = s.replace(m.group(0), ',kinds=' + '+'.join(both))
+                else:
+                    s += ',kinds=' + self.KINDS[prop]
             out.append(s)
         return out
 
@@ -298,22 +311,23 @@ class SX:
                     c.append(('D4', w, 0, 0, 4))
         elif prop == 'C09':
             if tier == 'quick':
-                c = [('B', 1, 2, 0, 2), ('B', 2, 2, 0, 1), ('B', 2, 2, 1, 1), ('B', 2, 3, 2, 1), ('B', 3, 2, 0, 0), ('B', 3, 3, 1, 0), ('B', 2, 1, 0, 2)]
+                c = [('B', 1, 2, 0, 2), ('B', 2, 2, 0, 1), ('B', 2, 2, 4, 1), ('B', 2, 3, 2, 1), ('B', 3, 2, 3, 0), ('B', 3, 3, 1, 0), ('B', 2, 1, 0, 2)]
             else:
-                for v in (0, 1, 2):
+                for v in range(9):
                     for w in (1, 2, 3):
                         for t in (1, 2, 3):
                             c.append(('B', w, t, v, 3))
         elif prop == 'C11':
             if tier == 'quick':
-                c = [('D1', 2, 2, 0, 1), ('D2', 2, 2, 0, 1), ('D3', 2, 2, 0, 1), ('D5', 2, 2, 0, 1), ('D4', 2, 0, 0, 1), ('B', 2, 2, 0, 1), ('B', 2, 3, 1, 0), ('D1', 3, 2, 0, 0)]
+                c = [('D1', 2, 2, 0, 1), ('D2', 2, 2, 0, 1), ('D3', 2, 2, 0, 1), ('D5', 2, 2, 0, 1), ('D4', 2, 0, 0, 1), ('B', 2, 2, 0, 1), ('B', 2, 2, 3, 1), ('B', 2, 2, 7, 1),
+                     ('B', 2, 3, 1, 0), ('B', 2, 3, 4, 0), ('B', 3, 3, 5, 0), ('D1', 3, 2, 0, 0)]
             else:
                 for d in ['D1', 'D2', 'D3', 'D5']:
                     for w in (2, 3):
                         for t in (1, 2, 3):
                             c.append((d, w, t, 0, 2))
                 c.append(('D4', 3, 0, 0, 2))
-                for v in (0, 1, 2):
+                for v in range(9):
                     for w in (2, 3):
                         for t in (2, 3):
                             c.append(('B', w, t, v, 2))
@@ -401,6 +415,25 @@ class SX:
                     cov['exhaustive'] = False
                 cov['samples'] += m['samples'][:1]
         results = self.run_configs(binary, self.configs(prop, tier), deadline, t0)
+        if prop == 'C09':
+            # SX treats the code between two synchronisation operations as atomic, which is only sound if the block builder is
+            # free of data races: the same driver is therefore also explored under TSan (vector-clock check on every schedule).
+            # An unordered conflicting access on the shared block table means real interleavings exist (inside push_back / the
+            # slot store) that SX cannot enumerate and in which a block is lost or the image differs: reported as a C09 violation.
+            tb = vlib.build_tool('tsan', 'sx')
+            tcfg = [('B', 2, 2, 0, 1), ('B', 2, 2, 3, 1), ('B', 2, 3, 4, 0), ('B', 2, 3, 7, 0)] if tier == 'quick' else [('B', w, t, v, 1) for v in range(9) for w in (2, 3) for t in (2, 3)]
+            tres = self.run_configs(tb, tcfg, deadline, t0)
+            cov['race_precondition'] = []
+            for r in tres:
+                cfg = r['cfg']
+                if r.get('skipped'):
+                    cov['exhaustive'] = False
+                    continue
+                cov['race_precondition'].append({'driver': 'B (TSan)', 'workers': cfg[1], 'blocks': cfg[2], 'variant': cfg[3], 'preemption_bound_completed': r['completed_bound'], 'schedules': r['executions']})
+                cov['schedules'] += r['executions']; cov['states'] += r['states']; cov['transitions'] += r['transitions']; cov['traces_validated_against_impl'] += r['executions']
+                for v in r['violations']:
+                    v = dict(v); v['tsan'] = True
+                    violations.append((cfg, v))
         for r in results:
             cfg = r['cfg']
             if r.get('skipped'):
@@ -426,16 +459,17 @@ class SX:
         seen = set()
         for cfg, v in sorted(violations, key=lambda x: (x[1]['preemptions'], len(x[1]['schedule']))):
             race = v.get('race', '')
+            vbin = vlib.build_tool('tsan', 'sx') if (v.get('tsan') or prop == 'C11') else binary
             if race:
-                race = vlib.symbolise_sig(binary, race)
+                race = vlib.symbolise_sig(vbin, race)
             key = (cfg[0], v['outcome'], re.sub(r'T\d+|obj\d+', '', v['detail'])[:60], re.sub(r'by T\d+', '', race)[:200])
             if key in seen:
                 continue
             seen.add(key)
-            rr = self.replay_sched(binary, cfg, v['schedule'])
+            rr = self.replay_sched(vbin, cfg, v['schedule'])
             name = '%s-%s.json' % (prop, hashlib.sha1(repr((cfg, v['schedule'])).encode()).hexdigest()[:10])
             path = os.path.join(REPLAYS, name)
-            json.dump({'prop': prop, 'engine': 'SX', 'flavour': flav, 'cfg': list(cfg), 'schedule': v['schedule'], 'outcome': v['outcome'], 'outcome_name': OUTCOME.get(v['outcome']),
+            json.dump({'prop': prop, 'engine': 'SX', 'flavour': 'tsan' if vbin != binary or prop == 'C11' else flav, 'cfg': list(cfg), 'schedule': v['schedule'], 'outcome': v['outcome'], 'outcome_name': OUTCOME.get(v['outcome']),
                        'detail': v['detail'], 'race': race, 'trace': v['trace'], 'preemptions': v['preemptions']}, open(path, 'w'), indent=1)
             if rr.get('outcome') != v['outcome'] or not rr.get('deterministic'):
                 log('UNREPRODUCED property=%s cfg=%s schedule=%s: %s' % (prop, cfg, v['schedule'], json.dumps(rr)[:300]))
